@@ -53,6 +53,10 @@ pub enum Op {
     /// worker that restarts under its fixed identity). From then on that identity is the new
     /// connection. Only done when everything the old connection wrote has been received.
     Rejoin(usize),
+    /// peer j is gone but nothing tells the socket on the read side: writes towards it fail
+    /// (EPIPE) from now on, so the socket can only find out through a send addressed to it -
+    /// which must return (with an error), also when repeated, and leave the others alone
+    Break(usize),
 }
 
 #[derive(Debug, Clone, Serialize, Deserialize, PartialEq, Eq, Hash)]
@@ -79,6 +83,9 @@ pub fn router_outcome(c: &RouterCase) -> Outcome {
     }
     if c.peers.iter().any(|p| p.lib) {
         o.class("library-peer-with-identity-option");
+    }
+    if c.ops.iter().any(|op| matches!(op, Op::Break(_))) {
+        o.class("peer-whose-writes-fail");
     }
     if c.ops.iter().any(|op| matches!(op, Op::Reset(_) | Op::Close(_))) {
         o.class("departed-target");
@@ -238,6 +245,15 @@ pub fn router_outcome(c: &RouterCase) -> Outcome {
                             if !gone[j] {
                                 l.to_lib.deliver_all();
                                 l.to_lib.end_after_all(ReadEnd::Eof);
+                                gone[j] = true;
+                            }
+                        }
+                    }
+                    Op::Break(j) => {
+                        let j = *j % peers.len();
+                        if let PeerRt::Raw(l) = &peers[j] {
+                            if !gone[j] && next[j] == sent[j].len() {
+                                l.from_lib.break_writer(std::io::ErrorKind::BrokenPipe);
                                 gone[j] = true;
                             }
                         }
@@ -518,7 +534,7 @@ pub fn gen_router(s: &mut Src<'_>) -> RouterCase {
             }
             continue;
         }
-        let op = match s.weighted(&[5, 4, 3, 2, 5, 1, 1]) {
+        let op = match s.weighted(&[5, 4, 3, 2, 5, 1, 1, 1]) {
             0 => Op::PeerSend(s.below(n), gen_lens(s)),
             1 => Op::Deliver(s.below(n), s.pick(&[0usize, 0, 1, 3, 10, 100])),
             2 => Op::RecvAll,
@@ -533,7 +549,8 @@ pub fn gen_router(s: &mut Src<'_>) -> RouterCase {
                 Op::Send(t, gen_lens(s))
             }
             5 => Op::Reset(s.below(n)),
-            _ => Op::Close(s.below(n)),
+            7 => Op::Close(s.below(n)),
+            _ => Op::Break(s.below(n)),
         };
         ops.push(op);
     }
@@ -596,6 +613,23 @@ pub fn run(ctx: &Ctx) -> (Report, PropertyMeta) {
                     Op::Send(Target::Peer(1), vec![0]),
                     Op::Send(Target::Peer(2), vec![1]),
                 ];
+                // a peer whose departure only a failing write can reveal: every send returns
+                cases.push(RouterCase {
+                    peers: peers.clone(),
+                    ops: vec![
+                        Op::PeerSend(1, vec![1]),
+                        Op::Deliver(1, 0),
+                        Op::RecvAll,
+                        Op::Break(1),
+                        Op::Send(Target::Peer(1), vec![3]),
+                        Op::Send(Target::Peer(1), vec![3]),
+                        Op::Send(Target::Peer(0), vec![1]),
+                        Op::Send(Target::Peer(2), vec![1]),
+                        Op::Break(2),
+                        Op::Send(Target::Peer(2), vec![70_000]),
+                        Op::Send(Target::Peer(0), vec![1]),
+                    ],
+                });
                 cases.push(RouterCase { peers, ops });
             }
         }
